@@ -133,7 +133,7 @@ def pad_value(kind, i):
     if kind in ("f32", "f64"):
         return i + 0.25
     if kind == "bytes":
-        return {"hex": "%04x" % i + "00" * (i % 3)}
+        return {"hex": "%08x" % i + "00" * (i % 3)}
     if kind == "text":
         return "pad%d" % i
     if kind == "json":
